@@ -658,6 +658,10 @@ macro_rules! impl_const_elem_matrix {
         let mut cursor = Cursor::new(bytes);
         let rows = cursor.read_u32::<LittleEndian>().unwrap() as usize;
         let cols = cursor.read_u32::<LittleEndian>().unwrap() as usize;
+        // every element occupies at least one byte of the payload
+        if rows.checked_mul(cols).map_or(true, |n| n > bytes.len()) {
+          panic!("Matrix dimensions {}x{} exceed the constant's {} bytes", rows, cols, bytes.len());
+        }
         let mut elements: Vec<T> = Vec::with_capacity(rows * cols);
 
         // Read in column-major order
@@ -698,6 +702,10 @@ where
     let mut cursor = Cursor::new(bytes);
     let rows = cursor.read_u32::<LittleEndian>().unwrap() as usize;
     let cols = cursor.read_u32::<LittleEndian>().unwrap() as usize;
+    // every element occupies at least one byte of the payload
+    if rows.checked_mul(cols).map_or(true, |n| n > bytes.len()) {
+      panic!("Matrix dimensions {}x{} exceed the constant's {} bytes", rows, cols, bytes.len());
+    }
     let mut elements = Vec::with_capacity(rows * cols);
     // Read in column-major order
     for _c in 0..cols {
@@ -733,6 +741,10 @@ where
     let mut cursor = Cursor::new(bytes);
     let rows = cursor.read_u32::<LittleEndian>().unwrap() as usize;
     let cols = cursor.read_u32::<LittleEndian>().unwrap() as usize;
+    // every element occupies at least one byte of the payload
+    if rows.checked_mul(cols).map_or(true, |n| n > bytes.len()) {
+      panic!("Matrix dimensions {}x{} exceed the constant's {} bytes", rows, cols, bytes.len());
+    }
     let mut elements = Vec::with_capacity(rows * cols);
     // Read in column-major order
     for _c in 0..cols {
@@ -768,6 +780,10 @@ where
     let mut cursor = Cursor::new(bytes);
     let rows = cursor.read_u32::<LittleEndian>().unwrap() as usize;
     let cols = cursor.read_u32::<LittleEndian>().unwrap() as usize;
+    // every element occupies at least one byte of the payload
+    if rows.checked_mul(cols).map_or(true, |n| n > bytes.len()) {
+      panic!("Matrix dimensions {}x{} exceed the constant's {} bytes", rows, cols, bytes.len());
+    }
     let mut elements = Vec::with_capacity(rows * cols);
     // Read in column-major order
     for _c in 0..cols {
@@ -853,6 +869,10 @@ where
     let mut cursor = Cursor::new(bytes);
     let rows = cursor.read_u32::<LittleEndian>().unwrap() as usize;
     let cols = cursor.read_u32::<LittleEndian>().unwrap() as usize;
+    // every element occupies at least one byte of the payload
+    if rows.checked_mul(cols).map_or(true, |n| n > bytes.len()) {
+      panic!("Matrix dimensions {}x{} exceed the constant's {} bytes", rows, cols, bytes.len());
+    }
     let mut elements = Vec::with_capacity(rows * cols);
     // Read in column-major order
     for _c in 0..cols {
@@ -1156,7 +1176,7 @@ impl ConstElem for ValueKind {
         let elem_vk = ValueKind::from_le(&bytes[cursor.position() as usize..]);
         cursor.set_position(cursor.position() + 1); // advance past elem_vk tag
         let dim_count = cursor.read_u32::<LittleEndian>().expect("read matrix dim count") as usize;
-        let mut dims = Vec::with_capacity(dim_count);
+        let mut dims = Vec::with_capacity(dim_count.min(bytes.len()));
         for _ in 0..dim_count {
             dims.push(cursor.read_u32::<LittleEndian>().expect("read matrix dim") as usize);
         }
@@ -1171,7 +1191,7 @@ impl ConstElem for ValueKind {
       #[cfg(feature = "table")]
       26 => {
         let field_count = cursor.read_u32::<LittleEndian>().expect("read table fields length") as usize;
-        let mut fields = Vec::with_capacity(field_count);
+        let mut fields = Vec::with_capacity(field_count.min(bytes.len()));
         for _ in 0..field_count {
           let name = String::from_le(&bytes[cursor.position() as usize..]);
           let mut buf = Vec::new();
@@ -1372,6 +1392,10 @@ impl ConstElem for MechSet {
       .read_u32::<LittleEndian>()
       .expect("read set element count") as usize;
     // 3) read each Value (advance cursor using each value's encoded length)
+    // every element occupies at least one byte of the payload
+    if num_elements > data.len() {
+      panic!("set declares {} elements but holds only {} bytes", num_elements, data.len());
+    }
     let mut set = IndexSet::with_capacity(num_elements);
     for _ in 0..num_elements {
       let pos = cursor.position() as usize;
@@ -1412,6 +1436,9 @@ impl ConstElem for MechTuple {
       .read_u32::<LittleEndian>()
       .expect("read tuple element count") as usize;
     // 3) Read each element
+    if num_elements > data.len() {
+      panic!("tuple declares {} elements but holds only {} bytes", num_elements, data.len());
+    }
     let mut elements: Vec<Box<Value>> = Vec::with_capacity(num_elements);
     for _ in 0..num_elements {
       let pos = cursor.position() as usize;
